@@ -10,10 +10,13 @@ import contracts.gulp as GU
 from contracts.eam_common import *
 import contracts.setfl as SF
 import contracts.eam_tabulation as ET
+import contracts.funcfl as FF
+from pyvc.symexec import sqrt_fn
 
 FUNCTIONS = [(PT.FILE, 'GULP_PairTabulation._write_pot'), (PT.FILE, 'GULP_PairTabulation.write'), (PT.FILE, 'GULP_PairTabulation.__init__'),
-             (PT.F_INIT, 'writePotentials'), (SF.FILE, '_writeSetFLPairPots'), (SF.FILE, 'writeSetFL'), (ET.FILE, 'ADP_EAMTabulation.write')]
-SPECSEQS = [GU.grows]
+             (PT.F_INIT, 'writePotentials'), (SF.FILE, '_writeSetFLPairPots'), (SF.FILE, 'writeSetFL'), (ET.FILE, 'ADP_EAMTabulation.write'),
+             (FF.FILE, '_writeHeader'), (FF.FILE, '_writeValueBlock'), (FF.FILE, 'writeFuncFL')]
+SPECSEQS = [GU.grows, FF.grid, FF.fcol, FF.ch1, FF.ch2, FF.ch3]
 
 def lemmas():
     out = []
@@ -29,17 +32,40 @@ def lemmas():
     L('adp-values-unscaled', [k >= 0], SF.pval(ps, a, b, dr, z3.BoolVal(False), k) == cat(tok(SF.NUM, phi(ps, a, b, real(k) * dr)), NL))
     L('adp-zero-when-undeclared', [find(ps, smin(a, b), smax(a, b), z3.Length(ps)) < 0, k >= 0],
       SF.pval(ps, a, b, dr, z3.BoolVal(False), k) == cat(tok(SF.NUM, z3.RealVal(0)), NL))
+    # funcfl: the effective charge squared and converted back (x 27.2 x 0.529 / r) is the pair potential; the header declares the grid
+    e = z3.Const('e', EAM['sort']); nrho = z3.Int('nrho'); drho = z3.Real('drho'); title = z3.String('title')
+    rk = real(k) * dr; zc = FF.zcharge(p, dr, k); x = FF._conv(FF._es(p, dr, k))
+    L('funcfl-charge-squared-converts-back-to-phi', [k >= 1, dr > 0, x >= 0, zc >= 0, zc * zc == x],       # the three facts are math.sqrt's contract
+      zc * zc * z3.RealVal('27.2') * z3.RealVal('0.529') / rk == K.E(p, rk))
+    L('funcfl-header-declares-the-grid', [], z3.PrefixOf(cat(tok("%s", title), NL, tok("%d %f %f %s", EAM['Z'](e), EAM['mass'](e), EAM['a0'](e), EAM['lattice'](e)), NL,
+                                                               tok("%d %f %d %f %f", nrho, drho, nr, dr, dr * real(nr - 1)), NL),
+                                                          FF.funcfl_doc(e, p, nrho, drho, nr, dr, title)))
+    vals = FF.funcfl_values(e, p, nrho, drho, nr, dr)
+    L('funcfl-nrho-embedding-values-then-nr-charges-then-nr-densities', [nrho >= 0, nr >= 0], z3.Length(vals) == nrho + nr + nr + 2)
+    L('funcfl-embedding-value-k', [nrho >= 0, nr >= 0, k >= 0, k < nrho, FF.fcol.nth_instance([EAM['embed'](e), drho], nrho, k)], vals[k] == Val.VR(app(EAM['embed'](e), real(k) * drho)))
+    L('funcfl-charge-k', [nrho >= 0, nr >= 0, k >= 0, k < nr, FF.ch3.nth_instance([p, dr], nr, k)], vals[nrho + 1 + k] == Val.VR(zc))
+    L('funcfl-density-k', [nrho >= 0, nr >= 0, k >= 0, k < nr, FF.fcol.nth_instance([EAM['dens'](e), dr], nr, k)], vals[nrho + nr + 2 + k] == Val.VR(app(EAM['dens'](e), rk)))
+    L('funcfl-a-number-is-written-as-itself', [k >= 0, z3.Not(Val.is_VN(vals[k]))], z3.PrefixOf(tok(FF.NUMT, vals[k]), FF.piece(vals, k)))
     return out + tables.routing_obligations('C19', ['GULP', 'eam_adp', 'excel', 'excel_eam', 'excel_eam_fs'])
 
 MUTANTS = [
+    (FF.FILE, 'writeFuncFL', "float(x) * drho for x in range(nrho)", "float(x + 1) * drho for x in range(nrho)", 'comprehension/0'),
+    (FF.FILE, 'writeFuncFL', "pairpot.energy(sep) * sep for sep", "pairpot.energy(sep) for sep", 'comprehension/4'),
+    (FF.FILE, 'writeFuncFL', "1.0 / 27.2 * 1.0 / 0.529", "1.0 / 27.2116 * 1.0 / 0.529", 'comprehension/5'),
+    (FF.FILE, 'writeFuncFL', "valuelist.extend(charges)\n    valuelist.extend(densities)", "valuelist.extend(densities)\n    valuelist.extend(charges)", 'post'),
+    (FF.FILE, 'writeFuncFL', "cutoff = dr * (nr - 1)", "cutoff = dr * nr", 'post'),
+    (FF.FILE, 'writeFuncFL', "eampot.electronDensityFunction(sep) for sep in separations", "eampot.electronDensityFunction(sep) for sep in rhos", 'comprehension/3'),
+    (FF.FILE, '_writeHeader', "(nrho, drho, nr, dr, cutoff)", "(nr, drho, nrho, dr, cutoff)", 'post'),
+    (FF.FILE, '_writeValueBlock', "if i % 5 == 0:", "if i % 4 == 0:", 'preserve/0'),
+    (FF.FILE, '_writeValueBlock', "if value == None:", "if value != None:", 'preserve/0'),
     (PT.FILE, 'GULP_PairTabulation._write_pot', "sepn=r, energy=energy", "sepn=energy, energy=r", 'preserve/0'),
     (PT.FILE, 'GULP_PairTabulation._write_pot', "cutoff=self.cutoff", "cutoff=self.nr", 'init/0'),
     (ET.FILE, 'ADP_EAMTabulation.write', "self._write_dipole(sbuild)\n    self._write_quadrupole(sbuild)", "self._write_quadrupole(sbuild)\n    self._write_dipole(sbuild)", 'post'),
     (SF.FILE, '_writeSetFLPairPots', "if scale_r:", "if True:", 'preserve/3'),
 ]
 ASSUMPTIONS = ['A1: float as real', 'A7: GULP "spline cubic" library format; LAMMPS pair_style adp layout (u blocks then w blocks, lower triangle, unscaled)', 'A6: openpyxl (Excel targets are decided by the oracle only)']
-BOUNDED = [dict(name='funcfl (writeFuncFL, _writeValueBlock) and the Excel sheets', bound='seeded models, quick 60 / thorough 1500 cases',
-                technique='concrete oracle on the real code: the list-with-None value stream of funcfl and the openpyxl cell model are outside the handled subset')]
+BOUNDED = [dict(name='the Excel sheets (and funcfl on the real code as a cross-check)', bound='seeded models, quick 60 / thorough 1500 cases',
+                technique='concrete oracle on the real code: the openpyxl cell model is outside the handled subset')]
 NOTES = ['ADP_EAMTabulationFactory._extract_pots (dipole/quadrupole sections read like [Pair]) is exercised through C09/C16 contracts, not here']
 
 def oracle_payload(tier, seed, mode='search'): return dict(mode=mode, seed=seed, n=60 if tier == 'quick' else 1500)
